@@ -6,15 +6,19 @@ import (
 	"encoding/json"
 	"fmt"
 	"net"
+	"reflect"
+	"sort"
 	"strconv"
 	"strings"
 	"testing"
 	"testing/synctest"
 	"unicode/utf8"
+
+	"github.com/honeytrap/honeytrap/event"
 )
 
-// C05 — recorded payloads are byte-exact and every emitted event serialises (restricted claim: the
-// MergeFrom/CopyFrom clause is a pure function and is not decided here, DESIGN §3 C05).
+// C05 — recorded payloads are byte-exact and every emitted event serialises (the MergeFrom/CopyFrom
+// clause is a pure function; it is evaluated on the events the simulation produced, nothing more).
 //
 // History invariants over every event of simulated runs of three workloads: segmented dialogues
 // (C04's generator), hostile inputs (C01's generator), and a payload sweep (all 256 single bytes, 2-byte
@@ -140,6 +144,7 @@ func c05Monitor(obs *Obs, conns []c05Conn, res *Result) {
 	for i := range conns {
 		bySrc[conns[i].src] = &conns[i]
 	}
+	mergeChecked := 0
 	for _, e := range obs.Events {
 		m := e.M
 		// (i) serialises, and the JSON has every key
@@ -160,6 +165,13 @@ func c05Monitor(obs *Obs, conns []c05Conn, res *Result) {
 			}
 		}
 		res.probe("events-serialised", 1)
+		// (i-b) merging keeps the keys the event already has, copying overwrites them.  A pure function of the
+		// event and the merged map: the simulator only supplies the events (every event a service emitted in this
+		// run, with the value types services really store) - no schedule or fault enters this clause.
+		if mergeChecked < 40 {
+			mergeChecked++
+			c05MergeCopy(m, res)
+		}
 		// (ii) payload / payload-hex / payload-length agree
 		var payload []byte
 		hasPayload := false
@@ -333,4 +345,69 @@ func jsonCoerce(s string) string {
 		i += size
 	}
 	return b.String()
+}
+
+// c05MergeCopy rebuilds the captured event, merges and copies a map that collides with every existing key
+// (with values of another type and of the same type) and adds new keys, and compares with the reference
+// semantics: MergeFrom keeps existing keys, CopyFrom overwrites.
+func c05MergeCopy(m map[string]interface{}, res *Result) {
+	keys := make([]string, 0, len(m))
+	for k := range m {
+		keys = append(keys, k)
+	}
+	sort.Strings(keys)
+	data := map[string]interface{}{}
+	for i, k := range keys {
+		switch i % 4 {
+		case 0:
+			data[k] = "merged-" + k
+		case 1:
+			data[k] = 9999 + i
+		case 2:
+			data[k] = ""
+		default:
+			data[k] = []string{"x"}
+		}
+	}
+	data["verif-new-key"] = "new"
+	data["verif-new-int"] = 7
+	same := func(a, b interface{}) bool { return reflect.DeepEqual(a, b) }
+	cat := fmt.Sprint(m["category"])
+	// merge
+	ev := event.New(event.CopyFrom(m))
+	event.Apply(ev, event.MergeFrom(data))
+	got := event.ToMap(ev)
+	for _, k := range keys {
+		if !same(got[k], m[k]) {
+			res.Violate("merge-overwrote-existing-key", cat, fmt.Sprintf("MergeFrom replaced existing key %q (%T %v) by %v", k, m[k], short(fmt.Sprint(m[k]), 60), short(fmt.Sprint(got[k]), 60)))
+			return
+		}
+	}
+	if !same(got["verif-new-key"], "new") || !same(got["verif-new-int"], 7) {
+		res.Violate("merge-dropped-new-key", cat, "MergeFrom did not add a key the event lacked")
+		return
+	}
+	// copy
+	ev = event.New(event.CopyFrom(m))
+	event.Apply(ev, event.CopyFrom(data))
+	got = event.ToMap(ev)
+	for k, v := range data {
+		if !same(got[k], v) {
+			res.Violate("copy-kept-existing-key", cat, fmt.Sprintf("CopyFrom did not overwrite key %q: holds %v, want %v", k, short(fmt.Sprint(got[k]), 60), v))
+			return
+		}
+	}
+	if len(got) != len(data)+boolInt(!hasKey(data, "date")) {
+		res.Violate("copy-changed-key-set", cat, fmt.Sprintf("after CopyFrom the event has %d keys, want %d", len(got), len(data)))
+		return
+	}
+	res.probe("merge-copy-checked", 1)
+}
+
+func hasKey(m map[string]interface{}, k string) bool { _, ok := m[k]; return ok }
+func boolInt(b bool) int {
+	if b {
+		return 1
+	}
+	return 0
 }
